@@ -551,6 +551,10 @@ def run(prog, rep, tier):
     check_flag_q(prog, rep, mods=[pyx])
     check_flag_l(prog, rep)
     check_coupled_array(prog, rep)
+    from .c03 import check_benign_rebind
+    rep.rule('OWN-benign-rebind', 'isort_qdata / _imake_contiguous re-bind _qdata / _data and never '
+             'permute the shared storage in place')
+    check_benign_rebind(prog, rep)
     rep.rule('COUPLED-shared-list', 'the list _data, shared with shallow copies, never changes its '
              'length in place (only by re-binding, like _qdata)')
     if check_shared_data_list(prog, rep) < 20:
